@@ -119,6 +119,26 @@ def _replay_blocks(args):
     return n, nontriv, drift[:5], viol[:5], samples
 
 
+def _replay_chunks_blocks(blocks):
+    """Extension: FKMNonlinearDetector.process() fed in chunks (single point, linear law; for the non-Masing law 'asym' the running extremes DO depend on the chunking because previous_load restarts at 0 in every call -- model result, no admissible material); differences are drift."""
+    n, drift = 0, []
+    for b in blocks:
+        st = parse_state(b.strip())
+        fed, cuts = st['fed'], st['cuts']
+        if not fed:
+            continue
+        n += 1
+        try:
+            got = hcm.project(hcm.history_single(list(fed), 'lin', list(cuts), [False] * len(cuts)))
+            exp = hcm.model_rows(st['st'])
+            if (not rows_equal(got['rows'], exp['rows']) or got['strains'] != exp['strains']) and len(drift) < 3:
+                drift.append('chunked HCM process(): sequence %s chunks %s: code rows %s model rows %s' % (fed, cuts, got['rows'][-1:], exp['rows'][-1:]))
+        except Exception as ex:
+            if len(drift) < 3:
+                drift.append('chunked HCM process(): sequence %s chunks %s raised %r' % (fed, cuts, ex))
+    return n, drift
+
+
 def record_process_history(seq, cuts, flushes, law):
     det = hcm.new_detector(hcm.ExactLaw(law))
     arr = np.asarray(seq, dtype=np.float64)
@@ -159,6 +179,22 @@ def run(chk):
             chk.evals(total)
             chk.part('replay_' + law, runs=total)
             os.remove(res.dump_path)
+    # extension beyond C05: chunk independence of FKMNonlinearDetector.process() (MC_HCMChunks), replayed; mismatches are drift
+    cres = tlc.run(os.path.join(SPEC, 'hcm', 'MC_HCMChunks.tla'), os.path.join(SPEC, 'hcm', 'MC_HCMChunks.cfg'), dump=True, timeout=3000, heap='12g')
+    chk.tlc('MC_HCMChunks.cfg', cres, 'extension: process() of the HCM detector is independent of the chunking (rows, running extremes, strain list, counters)')
+    if cres.violated:
+        chk.drift.append('MC_HCMChunks invariant %s violated (extension model)' % cres.violated)
+    if cres.dump_path and os.path.exists(cres.dump_path):
+        ctot = 0
+        parts = par.split_dump(cres.dump_path, 64)
+        if quick:
+            parts = parts[::4]          # quick: a quarter of the chunked histories (TLC has checked all)
+        for n, drift in par.pmap(_replay_chunks_blocks, parts, chunksize=1):
+            ctot += n
+            chk.drift += drift
+        chk.part('chunk_extension', histories_replayed=ctot)
+        chk.cov['traces_validated_against_impl'] += ctot
+        os.remove(cres.dump_path)
     # (C) recorded executions: two-pass runs of longer sequences and raw process()/flush histories, per law, validated by TLC
     rng = random.Random(chk.seed * 977 + 29)
     for law, scale in LAWS.items():
